@@ -1,10 +1,161 @@
 package main
 
-import "verifharness/emit"
+import (
+	"fmt"
+	"path/filepath"
+	"sync"
+	"time"
 
-// Further per-package drivers (sessions, certificates, ...) are registered here.
-var extraDrivers = []string{}
+	"reservoir/proxy/certs"
+	"reservoir/utils/syncmap"
+	"reservoir/webserver/auth"
+	"verifharness/e2elib"
+	"verifharness/emit"
+)
+
+// Further per-package drivers: dashboard sessions, certificate issuance, the shared SyncMap.
+var extraDrivers = []string{"sessions", "certs", "syncmap"}
 
 func extraChild(name string, r *emit.Rand, dir string, rounds int) {
-	panic("unknown driver " + name)
+	switch name {
+	case "sessions":
+		driveSessions(r, rounds)
+	case "certs":
+		driveCerts(r, dir, rounds)
+	case "syncmap":
+		driveSyncMap(r, rounds)
+	default:
+		panic("unknown driver " + name)
+	}
+}
+
+// Parallel API requests of the same and of different users: create, look up (with the sliding
+// extension), destroy, and the garbage collector's sweep over all sessions.
+func driveSessions(r *emit.Rand, rounds int) {
+	var wg sync.WaitGroup
+	shared := make([]*auth.Session, 4)
+	for i := range shared {
+		shared[i] = auth.CreateSession(int64(i))
+	}
+	stop := make(chan struct{})
+	go func() {
+		for {
+			select {
+			case <-stop:
+				return
+			default:
+			}
+			auth.VerifRunGC(time.Now())
+			time.Sleep(200 * time.Microsecond)
+		}
+	}()
+	for w := 0; w < 6; w++ {
+		wg.Add(1)
+		rr := emit.NewRand(int64(r.U64() >> 1))
+		go func() {
+			defer wg.Done()
+			var mine []*auth.Session
+			for i := 0; i < rounds*4; i++ {
+				switch rr.Intn(5) {
+				case 0:
+					mine = append(mine, auth.CreateSession(int64(100+rr.Intn(5))))
+				case 1, 2:
+					s := shared[rr.Intn(len(shared))]
+					if got, ok := auth.GetSession(s.ID); ok {
+						_ = got.ExpiresAt
+						_ = got.UserID
+					}
+				case 3:
+					if len(mine) > 0 {
+						j := rr.Intn(len(mine))
+						if got, ok := auth.GetSession(mine[j].ID); ok {
+							_ = got.ExpiresAt
+						}
+					}
+				case 4:
+					if len(mine) > 0 {
+						j := rr.Intn(len(mine))
+						mine[j].Destroy()
+						mine = append(mine[:j], mine[j+1:]...)
+					}
+				}
+			}
+		}()
+	}
+	// sessions close to expiry get extended by concurrent lookups
+	wg.Add(1)
+	go func() {
+		defer wg.Done()
+		for i := 0; i < rounds/10+1; i++ {
+			auth.VerifShiftSessions(52 * time.Minute)
+			time.Sleep(time.Millisecond)
+		}
+	}()
+	wg.Wait()
+	close(stop)
+	time.Sleep(2 * time.Millisecond)
+}
+
+func driveCerts(r *emit.Rand, dir string, rounds int) {
+	env, err := e2elib.Start(e2elib.Options{Backend: "memory", Dir: filepath.Join(dir, "env")})
+	if err != nil {
+		panic(err)
+	}
+	defer env.Close()
+	certFile, keyFile := filepath.Join(dir, "env", "ca.crt"), filepath.Join(dir, "env", "ca.key")
+	ca, err := certs.NewPrivateCA(certFile, keyFile)
+	if err != nil {
+		panic(err)
+	}
+	hosts := []string{"a.example:443", "b.example:443", "127.0.0.1:8443", "[::1]:443", "c.example:8443"}
+	var wg sync.WaitGroup
+	for w := 0; w < 8; w++ {
+		wg.Add(1)
+		rr := emit.NewRand(int64(r.U64() >> 1))
+		go func() {
+			defer wg.Done()
+			for i := 0; i < rounds/10+3; i++ {
+				h := hosts[rr.Intn(len(hosts))]
+				if c, err := ca.GetCertForHost(h); err == nil && c.Leaf != nil {
+					_ = c.Leaf.NotAfter
+				}
+			}
+		}()
+	}
+	wg.Wait()
+}
+
+func driveSyncMap(r *emit.Rand, rounds int) {
+	m := syncmap.New[string, int]()
+	var wg sync.WaitGroup
+	for w := 0; w < 4; w++ {
+		wg.Add(1)
+		rr := emit.NewRand(int64(r.U64() >> 1))
+		go func() {
+			defer wg.Done()
+			for i := 0; i < rounds*4; i++ {
+				k := fmt.Sprintf("k%d", rr.Intn(16))
+				switch rr.Intn(6) {
+				case 0:
+					m.Set(k, i)
+				case 1:
+					m.Get(k)
+				case 2:
+					m.Delete(k)
+				case 3:
+					m.GetOrSet(k, i)
+				case 4:
+					n := 0
+					for range m.Items() {
+						n++
+					}
+				case 5:
+					for kk := range m.Keys() {
+						_ = kk
+					}
+				}
+			}
+		}()
+	}
+	wg.Wait()
 }
